@@ -254,6 +254,13 @@ class MultiTierCache(Entity):
         # Remove from backing store
         store_existed = yield from self._backing_store.delete(key)
 
+        # Invalidate again now that the delete has landed: a get() that ran while
+        # it was in flight missed every tier, still found the value in the backing
+        # store and cached it in L1, which would be served from then on.
+        for tier in self._tiers:
+            if hasattr(tier, "invalidate"):
+                tier.invalidate(key)
+
         # Clean up access tracking
         self._access_counts.pop(key, None)
 
